@@ -1,5 +1,6 @@
 """property -> units, scope decided, unverified parts, trust notes (DESIGN.md sections 1, 5, 8)"""
 import cex
+import validate
 
 CONC = 'mutual exclusion of std::sync::RwLock (each ActivePeers method body is one lock acquisition: checked as a borrow, X8)'
 
@@ -31,6 +32,44 @@ PROPERTIES = {
         unverified=['that both handshakes complete and RPCs succeed afterwards (liveness / quinn)',
                     'delivery order of close notifications is covered only through: any later remove_with_stable_id(loser) is a no-op'],
         assumptions=[CONC, 'the order axiom used by Verus (derived PartialOrd on PeerId = lexicographic on bytes) is PROVED by Kani harness derived_order_is_lexicographic on the real type'],
+    ),
+    'C07': dict(
+        units=['wire', 'kani_wire'],
+        canaries=['wire'],
+        counterexample=cex.cex_c07,
+        extra=[validate.bincode_golden, validate.frame_boundary],
+        scope='exact byte layout of requests and responses (writer postcondition independent of the reader: preamble(version) ++ '
+              'frame(bincode header) ++ frame(body)), lossless round trip and rejection of every strict prefix as lemmas over writer and reader '
+              'contracts, readers accept exactly the valid messages and never panic, extensions never travel and decoded messages start with '
+              'none; the 8-byte preamble codec and the closed sets of versions / status codes are proved by Kani over their full input domains.',
+        unverified=['bincode 1.3 byte layout of the two raw headers and its inverse law (assumed; golden vectors checked by execution in the thorough tier)',
+                    'tokio-util LengthDelimitedCodec framing (assumed contract transcribed from tokio-util 0.7.19; boundary behaviour checked by execution in the thorough tier)',
+                    'serde field order = declaration order (structural: the struct declarations are extracted verbatim)'],
+        assumptions=['contracts of read/write_version_frame, Version, StatusCode used by the Verus unit are proved by Kani on the same extracted text; the transcription between the two statements is trusted'],
+    ),
+    'C15': dict(
+        units=['wire'],
+        canaries=['wire'],
+        counterexample=cex.cex_c15,
+        extra=[validate.frame_boundary],
+        scope='the codec is built from the configuration exactly (4-byte big-endian length, configured maximum = codec limit), the same '
+              'function with the same configuration builds reader and writer on both ends of every stream (BiStreamRequestHandler::new, do_rpc), '
+              'writers refuse and readers reject frames above the local maximum and deliver frames up to and including it (contracts + lemma). '
+              'The clause "with no maximum configured, no size limit is imposed" FAILS on the pinned tree and is recorded as a known finding.',
+        unverified=['"error for that RPC only, never a torn-down connection": task / stream isolation is quinn + tokio',
+                    'strict > comparison inside tokio-util (assumed contract, checked by execution at max and max+1)'],
+        assumptions=[],
+    ),
+    'C06': dict(
+        units=['wire', 'kani_wire'],
+        canaries=['wire'],
+        scope='NARROW: every function anemo itself runs on attacker-controlled bytes before the user service is called returns an error instead '
+              'of panicking, for every byte string: read_version_frame (Kani, all inputs), read_request / read_response, from_raw, Version::new, '
+              'StatusCode::new, try_parse_timeout, both Timeout::call, and BiStreamRequestHandler::handle swallows the error so only that stream ends. '
+              'Verus proves panic-freedom as a by-product: every unwrap, expect, index and arithmetic operation in a verified body is an obligation.',
+        unverified=['panics inside tokio-util, bincode, matchit, quinn, rustls', 'the select! loop of InboundRequestHandler::start and task isolation ("other streams and peers keep being served")',
+                    'memory exhaustion (bounded only by the frame limit, see C15)', 'stream-level misbehaviour (reset/stop/finish) and datagrams: quinn'],
+        assumptions=[],
     ),
 }
 
